@@ -273,6 +273,35 @@ func gen(r *hx.Rng, n int, tier string) []string {
 			default:
 				attempt = r.Range(1, m+1)
 			}
+			if r.Chance(1, 5) {
+				// tight layouts deep in the retry history: pair and triplet stages with a quorum
+				// that only some pairs/triplets leave intact (e.g. 5 operators x 2 seats, quorum 6)
+				mm, ss := r.Range(3, 6), r.Range(1, 3)
+				ops = ops[:0]
+				for o := 0; o < mm; o++ {
+					for j := 0; j < ss+(o%2)*r.Intn(2); j++ {
+						ops = append(ops, o)
+					}
+				}
+				nm, m = len(ops), mm
+				total = m + m*(m-1)/2 + m*(m-1)*(m-2)/6
+				quorum = nm - r.Range(2*ss, 3*ss+1)
+				if quorum < 1 {
+					quorum = 1
+				}
+				attempt = r.Range(2+m, total+2)
+				if r.Chance(1, 2) { // triplet stage
+					attempt = r.Range(2+m+m*(m-1)/2, total+1)
+				}
+				all := make([]int, nm)
+				for i, j := range r.Perm(nm) {
+					all[i] = j + 1
+				}
+				seed := attemptSeedOf(dkgFn(ops, quorum, msg, attempt))
+				out = append(out, fmt.Sprintf("dsel %s %d %s %d %s %s", hx.JoinInts(ops), quorum, msg, attempt,
+					hx.JoinInts(all), stream(seed, keygenStreamLen(m))))
+				continue
+			}
 			ready := genReady(r, nm, quorum)
 			if r.Chance(1, 2) { // everybody (or nearly) announced readiness
 				ready = genReady(r, nm, nm-r.Intn(2))
